@@ -68,6 +68,9 @@ type World struct {
 	streams  map[string]int
 	// EagerDag resolves remote fetches immediately from any connected holder (per-run knob).
 	EagerDag bool
+	// blockLabel: abstract, content-independent name of every block (creator node, creation rank)
+	blockLabel map[cid.Cid]string
+	blockSeq   map[int]int
 	// TopicName maps a topic (store address) to a short stable name for traces.
 	topicNames map[string]string
 
@@ -201,6 +204,16 @@ func (d dagAPI) Add(ctx context.Context, nd ipld.Node) error {
 		d.n.blocks[nd.Cid()] = nd
 		d.n.w.Stats.BlocksAdded++
 	}
+	// abstract name of the block: (node that created it, how many blocks that node had created before). Block
+	// identifiers are hashes of content that includes nonces; the simulator's candidate order must not depend on them.
+	if d.n.w.blockLabel == nil {
+		d.n.w.blockLabel = map[cid.Cid]string{}
+		d.n.w.blockSeq = map[int]int{}
+	}
+	if _, ok := d.n.w.blockLabel[nd.Cid()]; !ok {
+		d.n.w.blockSeq[d.n.Index]++
+		d.n.w.blockLabel[nd.Cid()] = fmt.Sprintf("%03d#%07d", d.n.Index, d.n.w.blockSeq[d.n.Index])
+	}
 	d.n.w.mu.Unlock()
 	return nil
 }
@@ -322,6 +335,10 @@ func (w *World) PendingFetches() (resolvable, stalled []*Fetch) {
 	sort.SliceStable(fs, func(i, j int) bool {
 		if fs[i].Node != fs[j].Node {
 			return fs[i].Node < fs[j].Node
+		}
+		li, lj := w.blockLabel[fs[i].Cid], w.blockLabel[fs[j].Cid]
+		if li != lj {
+			return li < lj
 		}
 		return fs[i].Cid.String() < fs[j].Cid.String()
 	})
